@@ -47,6 +47,77 @@ def sccs(graph):
     return out
 
 
+I64_CONV = r'(<impl i64>::from_str_radix|<impl (std::str::)?FromStr for i64>::from_str|<impl str>::parse::<i64>)$'
+
+
+def int_constant_producers(rep, prog, cg):
+    """R16.n - the audited reason for `-d.0` in IntConstant::parse ("the operand is never i64::MIN") as a checked rule:
+    every IntConstant built by the parser is either the negation itself or the result of an i64 conversion of a
+    sign-less digit lexeme (digit1 / hex_digit1), so its value is >= 0; no integer cast feeds the constructor."""
+    import re
+    from mirlib import show, subexprs
+    rule = 'R16.n'
+    top = [b for b in prog.bodies.values() if b.crate == 'pilota_thrift_parser' and b.kind == 'AssocFn' and b.name == 'parse' and (b.impl_self or '').endswith('IntConstant')]
+    if len(top) != 1:
+        rep.anchor_missing(rule, 'impl Parser for IntConstant')
+        return
+    fam = [b for b in prog.bodies.values() if b.crate == 'pilota_thrift_parser' and (b.id == top[0].id or b.owner_fn == top[0].id)]
+    n = 0
+
+    def is_i64_conv(b, e):
+        if e[0] != 'call':
+            return False
+        if re.search(I64_CONV, e[1]):
+            return True
+        if e[1].endswith('<impl str>::parse') and len(e) > 3:
+            t = b.bbs[e[3]]['t']
+            g = t['f'].get('c', {}).get('fn', {}).get('gargs', [])
+            return [str(x) for x in g] == ['i64']
+        return False
+    for b in fam:
+        rep.functions.add(b.id)
+        for bi, bb in enumerate(b.bbs):
+            if bb['cleanup']:
+                continue
+            for st in bb['st']:
+                r = st.get('r', {})
+                if r.get('k') == 'agg' and r['kind'].endswith('IntConstant::IntConstant'):
+                    n += 1
+                    x = b.expr_op(r['ops'][0])
+                    key = '%s|%s|IntConstant(%s)' % (rule, b.key.split('::')[-1], re.sub(r'\b(arg\d+|_\d+|[a-z_][a-z0-9_]*)\.0', 'v.0', show(mirlib.nosite(x)))[:80])
+                    inner = x
+                    while inner[0] == 'try':
+                        inner = inner[1]
+                    if x[0] == 'un' and x[1] == 'Neg':
+                        rep.ok(rule, key, 'the negation branch (its overflow assert is the audited site)', b.loc(st.get('ln')))
+                    elif is_i64_conv(b, inner) and not any(y[0] == 'cast' for y in subexprs(x)):
+                        rep.ok(rule, key, 'value produced by %s' % mirlib.short(inner[1]), b.loc(st.get('ln')))
+                    else:
+                        rep.bad(rule, key, b.loc(st.get('ln')), 'IntConstant built from %s: only an i64 conversion of a sign-less digit lexeme keeps the value >= 0; otherwise i64::MIN becomes representable and the negation branch `-d.0` panics on "-<that literal>"' % show(x))
+        for cs in b.calls():
+            # Result::map(conv, IntConstant) / Option::map: the constructor passed as a function
+            if cs.name in ('map', 'and_then', 'map_or') and len(cs.t['args']) >= 2:
+                f = cs.arg(1)
+                if f[0] == 'fnref' and f[1].endswith('::IntConstant'):
+                    n += 1
+                    recv = cs.arg(0)
+                    key = '%s|%s|map(IntConstant)' % (rule, b.key.split('::')[-1])
+                    if is_i64_conv(b, recv) and not any(y[0] == 'cast' for y in subexprs(recv)):
+                        rep.ok(rule, key, 'constructor mapped over %s' % mirlib.short(recv[1]), cs.loc())
+                    else:
+                        rep.bad(rule, key, cs.loc(), 'IntConstant constructor mapped over %s: only an i64 conversion of a sign-less digit lexeme keeps the value >= 0 (see the negation branch)' % show(recv))
+            # the lexemes converted are digit1 / hex_digit1 (no sign character)
+            if cs.name == 'map_res' and cs.t['args']:
+                lex = cs.arg(0)
+                key = '%s|lexeme|%s' % (rule, show(mirlib.nosite(lex))[:60])
+                if lex[0] == 'fnref' and re.search(r'::(digit1|hex_digit1)$', lex[1]):
+                    rep.ok(rule, key, 'converted lexeme is %s' % mirlib.short(lex[1]), cs.loc())
+                else:
+                    rep.bad(rule, key, cs.loc(), 'the text handed to the integer conversion is %s, not digit1/hex_digit1: a sign inside the lexeme makes i64::MIN representable' % show(lex))
+    if n < 3:
+        rep.anchor_missing(rule, 'IntConstant constructions in IntConstant::parse (found %d, expected 3)' % n)
+
+
 def run(ctx):
     rep = Report('C16')
     prog = mirlib.load_program([ws_facts('ws')])
@@ -63,6 +134,7 @@ def run(ctx):
     for b in parsers:
         rep.ok('R16.p', 'R16.p|' + b.id, 'parser body analysed (%d blocks)' % len(b.bbs), b.loc())
     rep.floor('R16.p', 25)
+    int_constant_producers(rep, prog, cg)
     # recursion inventory
     g = {}
     for b in bodies:
